@@ -1300,7 +1300,8 @@ const COMMENTS_MULTI: &[&str] = &["{ a\n  b }", "(* a\n\n b *)"];
 const DIRECTIVES: &[&str] = &[
     "{$R+}", "{$define foo}", "{$region 'x'}", "{$i inc.inc}", "(*$hints off*)", "{$WARN SYMBOL_PLATFORM OFF}", "{$I defs.inc}",
     "{$r forms.res}", "{$l\thelper.obj}", "(*$e dll*)", "{$m 16384,1048576}", "{$R *.res}", "{$d 'x'}", "{$r+,q-}", "{$z4}",
-    "{$a8}", "{$minenumsize 4}", "{$i  two.inc}", "{$warn symbol_platform off}", "{$h+ on}", "{$x}",
+    "{$a8}", "{$minenumsize 4}", "{$i  two.inc}", "{$warn symbol_platform off}", "{$h+ on}", "{$x}", "{$r+,qx}", "{$a8b}", "{$z4,ab-}",
+    "{$q-,r}", "{$ab+}", "{$m+,x9y}",
 ];
 
 /// Render a program with arbitrary layout.  Returns the text.
